@@ -15,3 +15,6 @@ HARNESSES.append({"name": "count5", "fn": P + "VerifC16Count5", "bounds": "5 sen
 ASSUMPTIONS = ["scheduler model (symex/sched.py): goroutine bodies run at the spawn point up to completion, their sends are pending until received in an arbitrary order; a select takes any ready case; the context may fire at any select; a select at which nothing is ever ready (no deadline and a clock that never answers) is outside the model",
                "wall-clock lateness of the Go scheduler and the runtime itself are outside the claim"]
 EXPLANATION = ""
+CLAIMED = True
+LEVEL_TEXT = "Bounded model checking of the real collectMeasurements / MeasureClockOffsets (incl. the drain goroutine and the deferred counter release) under a scheduler model in which the arrival order of the senders, which of them succeed, and the select at which the deadline fires are all symbolic: results stored exactly once at the front, nothing else written, all successes collected when the deadline does not fire, every send received (no goroutine left blocked), the in-progress counter released, a second collection / length mismatch refused."
+LEVEL_NOTE = "n <= 4 (quick) / 6 clocks; scheduler model as stated in symex/sched.py (goroutine bodies run at their spawn point, sends pending until received in arbitrary order, select takes any ready case); a select at which nothing ever becomes ready is outside the model; counterexamples that depend on the schedule cannot be replayed natively and would be reported as inconclusive, not as violations."
